@@ -4,7 +4,7 @@
    signals with a value table, the kind only; the full statement is
    Acme.C10.Proofs.import_signal_faithful_full_statement. *)
 From Coq Require Import String ZArith List.
-From Acme.C10 Require Import DbcDoc BusModel Import Bits BitsProofs Proofs.
+From Acme.C10 Require Import DbcDoc BusModel Import Bits BitsProofs Proofs ProofsEnum ProofsLayout ProofsFaithful.
 Import ListNotations.
 Open Scope Z_scope.
 
@@ -67,3 +67,27 @@ Theorem import_valid : forall d b, import d = Ok b ->
   Forall (msg_valid (map n_name (b_nodes b))) (b_messages b).
 Proof. exact Proofs.import_valid. Qed.
 Print Assumptions import_valid.
+
+(* enum signals of messages without multiplexor switch: kind enum, exactly the values of the
+   signal's (last) VAL_ line, and the file's size, read in the final enum table *)
+Theorem import_enum_faithful : forall d b, import d = Ok b ->
+  exists se : list (key * Z),
+    (forall k, (exists e, lookup key_eqb k se = Some e) <-> has_valenc d k) /\
+    Forall2 (fun dm m => no_muxor dm ->
+      Forall2 (fun ds s =>
+        forall ei0, lookup key_eqb (dm_id dm, ds_name ds) se = Some ei0 ->
+          exists vals, last_valenc (d_valencs d) (dm_id dm, ds_name ds) = Some vals /\
+            s_kind s = KEnum /\
+            sorted_enum_values (nth_enum (b_enums b) (s_enum s)) = vals /\
+            sig_size (b_enums b) s = ds_size ds)
+        (sorted_signals dm) (m_signals m))
+      (d_messages d) (b_messages b).
+Proof. exact ProofsFaithful.import_enum_faithful. Qed.
+Print Assumptions import_enum_faithful.
+
+(* layout validity over the plain model, every message (multiplexed ones included): the top-level
+   signals lie inside the payload and are pairwise disjoint, sizes read in the final enum table *)
+Theorem import_layout_valid : forall d b, import d = Ok b ->
+  Forall (fun m => tops_valid (b_enums b) (m_size m * 8) (m_signals m)) (b_messages b).
+Proof. exact ProofsLayout.import_layout_valid. Qed.
+Print Assumptions import_layout_valid.
